@@ -122,8 +122,9 @@ class Tracer:
 # ---------------------------------------------------------------- program spaces
 OPS_ALL = list(range(0x4f, 0xba)) + [0xba, 0xfa, 0xfb, 0xfc, 0xfd, 0xfe, 0xff]
 PUSHES = [b"\x00", b"\x01\x01", b"\x01\x00", b"\x01\x80", b"\x01\x05", b"\x04\xff\xff\xff\x7f", b"\x05\x00\x00\x00\x80\x00",
-          b"\x4d\x08\x02" + b"\x01" * 520, b"\x4d\x09\x02" + b"\x01" * 521, b"\x4c\x01\x07", b"\x02\x01", b"\x4e\x01\x00\x00"]
-STACKS = [[], [b"\x01"], [b""], [b"\x01", b"\x02"], [b"\x02", b"\x01", b"\x80"],
+          b"\x4d\x08\x02" + b"\x01" * 520, b"\x4d\x09\x02" + b"\x01" * 521, b"\x4c\x01\x07", b"\x02\x01", b"\x4e\x01\x00\x00",
+          b"\x02\x00\x80", b"\x03\x00\x00\x80", b"\x05\x00\x00\x00\x00\x80", b"\x02\x80\x00", b"\x02\x00\x81"]
+STACKS = [[], [b"\x01"], [b""], [b"\x01", b"\x02"], [b"\x02", b"\x01", b"\x80"], [b"\x01", b"\x00\x80"], [b"\x00\x00\x00\x80"],
           [b"\x05", b"\x06", b"\x07", b"\x08", b"\x09", b"\x0a"], [b"\xff\xff\xff\x7f", b"\x01"], [b"\x00\x00\x00\x80\x00", b"\x01"]]
 
 
@@ -167,6 +168,17 @@ def limit_family():
     out.append((b"\x55\x51\x53\xa5\x82", [], ()))
     out.append((b"\x53\x51\x53\xa5", [], ()))
     out.append((b"\x51\x51\x53\xa5", [], ()))
+    # hash opcodes over element lengths around every block/padding boundary
+    for hop in (0xa6, 0xa7, 0xa8, 0xa9, 0xaa):
+        for ln in (0, 1, 55, 56, 57, 63, 64, 65, 111, 119, 120, 127, 128, 183, 247, 311, 375, 439, 503, 520):
+            data = bytes((7 * i + ln) & 0xff for i in range(ln))
+            push = (bytes([ln]) if ln < 76 else (b"\x4c" + bytes([ln]) if ln < 256 else b"\x4d" + ln.to_bytes(2, "little"))) + data
+            out.append((push + bytes([hop]), [], ()))
+    # every truth-value consumer on multi-byte negative zeros and near misses
+    for v in (b"\x80", b"\x00\x80", b"\x00\x00\x80", b"\x00\x00\x00\x80", b"\x00\x00\x00\x00\x80", b"\x80\x00", b"\x00\x81", b"\x00", b"\x00\x00"):
+        pv = bytes([len(v)]) + v
+        for tail in (b"\x63\x51\x67\x52\x68", b"\x64\x51\x67\x52\x68", b"\x73", b"\x69", b"\x91", b"\x92", b"\x9a", b"\x9b", b""):
+            out.append((pv + tail, [], ()))
     for k in (0, 1, 2, 3):
         out.append((bytes([0x50 + k]) if k else b"\x00") if False else (b"\x11\x12\x13\x14" + (bytes([0x50 + k]) if k else b"\x00") + b"\x79", [], ()))
         out.append((b"\x01\x11\x01\x12\x01\x13" + (bytes([0x50 + k]) if k else b"\x00") + b"\x7a", [], ()))
@@ -266,7 +278,25 @@ def sig_programs(r, n):
             spk2 = CScript([1, OP_CODESEPARATOR, 0x75, k.pub, OP_CHECKSIG])
             sig2 = k.sign(SignatureHash(CScript([0x75, k.pub, OP_CHECKSIG]), tx, idx, ht)) + bytes([ht])
             out.append((bytes(CScript([sig2])), bytes(spk2), (), d, idx))
-        else:              # P2SH 2-of-2
+        if kind in (0, 2):   # a malformed key checked after a good one, and one signature presented twice
+            spk0 = CScript([k.pub, OP_CHECKSIG])
+            sig0 = k.sign(SignatureHash(CScript([0x76, k.pub, OP_CHECKSIGVERIFY, b"\x02" + bytes(31), OP_CHECKSIG]), tx, idx, ht)) + bytes([ht])
+            for bad in (b"\x02" + bytes(31), b"", k.pub[:-1], b"\x05" + k.pub[1:], k.pub + b"\x00"):
+                spk_b = CScript([0x76, k.pub, OP_CHECKSIGVERIFY, bad, OP_CHECKSIG])
+                sig_b = k.sign(SignatureHash(spk_b, tx, idx, ht)) + bytes([ht])
+                out.append((bytes(CScript([sig_b])), bytes(spk_b), (), d, idx))
+                out.append((bytes(CScript([sig_b])), bytes(CScript([bad, OP_CHECKSIG])), (), d, idx))      # straight after a good check
+            k2 = ks[(i + 1) % 3]
+            ms = CScript([2, k.pub, k2.pub, 2, OP_CHECKMULTISIG])
+            s1 = k.sign(SignatureHash(ms, tx, idx, ht)) + bytes([ht])
+            s2 = k2.sign(SignatureHash(ms, tx, idx, ht)) + bytes([ht])
+            out.append((bytes(CScript([0, s1, s1])), bytes(ms), (), d, idx))
+            out.append((bytes(CScript([0, s2, s2])), bytes(ms), (), d, idx))
+            out.append((bytes(CScript([0, s1, s2])), bytes(ms), (), d, idx))
+            msb = CScript([2, b"\x02" + bytes(31), k.pub, 2, OP_CHECKMULTISIG])
+            sb = k.sign(SignatureHash(msb, tx, idx, ht)) + bytes([ht])
+            out.append((bytes(CScript([0, sb, sb])), bytes(msb), (), d, idx))
+        if kind == 4:              # P2SH 2-of-2
             k2 = ks[(i + 1) % 3]
             redeem = CScript([2, k.pub, k2.pub, 2, OP_CHECKMULTISIG])
             spk = CScript([OP_HASH160, Hash160(redeem), OP_EQUAL])
